@@ -37,6 +37,7 @@ type Engine struct {
 	loadSecs  float64
 	globalStoreLog map[string][]string
 	curProp string
+	globalInits map[*ssa.Global]*globalInit
 }
 
 func NewEngine(repo string, specDir string) (*Engine, error) {
@@ -69,6 +70,7 @@ func NewEngine(repo string, specDir string) (*Engine, error) {
 		e.fnByKey[funcKey(fn)] = fn
 	}
 	e.scanGlobals()
+	e.computeGlobalInits()
 	// contract files in the repository (behind the build tag) and spec files
 	for _, p := range pkgs {
 		if len(p.GoFiles) == 0 {
@@ -399,6 +401,8 @@ func (e *Engine) Discharge(results []*FnResult, timeoutS int, workers int) {
 			}
 			asserts := r.ctx.relevantAxioms(ob.Asserts)
 			asserts = append(asserts, ob.Asserts...)
+			asserts = r.tb.instantiate(asserts, 2)
+			asserts = append(r.ctx.relevantAxioms(asserts), asserts...)
 			items = append(items, workItem{ob, r.tb.Script(asserts, ob.Cover || true, "ALL")})
 		}
 	}
